@@ -62,6 +62,8 @@ struct Sched
   std::atomic<bool> releaseAll{false};  // end of case: nobody is held any longer, arrivals are still counted
   std::atomic<int> loopState{0};  // 1: the loop thread is at / inside its wait
   const void *object = nullptr;
+  std::vector<int> delayNs;  // delay schedules: every arrival at point i is delayed by delayNs[i] (empty: none)
+  std::atomic<bool> stopAfterStart{false};
 };
 static Sched S;
 
@@ -84,6 +86,11 @@ static void hookFn(const char *point, const void *)
   else if (isLoopPoint(id))
     S.loopState = 0;
   int n = S.arrivals[id].fetch_add(1) + 1;
+  if (!S.delayNs.empty() && S.delayNs[(size_t)id] > 0 && !S.releaseAll.load()) {
+    auto t0 = std::chrono::steady_clock::now();
+    while (std::chrono::steady_clock::now() - t0 < std::chrono::nanoseconds(S.delayNs[(size_t)id]) && S.active.load() && !S.releaseAll.load())
+      std::this_thread::yield();
+  }
   for (size_t r = 0; r < S.rules.size() && r < 8; ++r) {
     const Rule &ru = S.rules[r];
     if (ru.holdPoint != id || ru.holdArrival != n)
@@ -208,8 +215,11 @@ static void run_case(const Case &c, pbt::Ctx &ctx)
         running = false;
         if (quietFrom < 0)
           quietFrom = e0;
-        // ... and does not begin again: wait until the loop thread has gone to sleep (or 100 ms), then compare
-        waitFor([&] { return S.loopState.load() == 1 || mon->entries.load() != quietFrom; }, 0.1);
+        // ... and does not begin again: wait until the loop thread has gone to sleep (or 100 ms), then compare.
+        // Delay schedules skip the wait for odd arguments: the next call (typically start()) then meets the loop thread
+        // wherever it happens to be; the entry count is still compared before every later call.
+        if (S.delayNs.empty() || op.second % 2 == 0)
+          waitFor([&] { return S.loopState.load() == 1 || mon->entries.load() != quietFrom; }, 0.1);
         checkQuiet("after stop()");
         break;
       }
@@ -264,7 +274,185 @@ static void run_case(const Case &c, pbt::Ctx &ctx)
     }
   }
   ctx.label(threadMode ? "THREAD" : "TASK");
+  S.stopAfterStart = stopAfterStart;
   ctx.nt(anyFired && stopAfterStart);
+}
+
+// ---------------------------------------------------------------- delay schedules
+// Pause rules express ONE ordering constraint each; an interleaving that needs three or four of them at once (A passes X
+// before B passes Y, for several pairs) is out of reach of <= 3 random rules.  A delay schedule instead slows down EVERY
+// arrival at a point by a per-case amount drawn from {0, 20 us, 200 us, 1 ms, 3 ms}: the relative speeds of the two threads'
+// steps change wholesale, so many orderings hold at once by chance.  Same monitor, same oracle as the rule schedules.
+struct DelayCase
+{
+  int launch = 0;
+  std::vector<std::pair<int, int>> prog;
+  std::vector<int> delayClass;  // per point
+  int bodyUs = 0;
+  auto tie() { return std::tie(launch, prog, delayClass, bodyUs); }
+};
+static void delay_case(const DelayCase &d, pbt::Ctx &ctx)
+{
+  static const int NS[5] = {0, 20000, 200000, 1000000, 3000000};
+  Case c;
+  c.launch = d.launch;
+  c.prog = d.prog;
+  c.bodyUs = d.bodyUs;
+  S.delayNs.assign(NPOINTS, 0);
+  bool loopDelayed = false, ctlDelayed = false;
+  for (int i = 0; i < NPOINTS && i < (int)d.delayClass.size(); ++i) {
+    S.delayNs[(size_t)i] = NS[((d.delayClass[(size_t)i] % 5) + 5) % 5];
+    if (S.delayNs[(size_t)i])
+      (isLoopPoint(i) ? loopDelayed : ctlDelayed) = true;
+  }
+  struct Reset
+  {
+    ~Reset() { S.delayNs.clear(); }
+  } reset;
+  S.stopAfterStart = false;
+  run_case(c, ctx);
+  if (loopDelayed && ctlDelayed)
+    ctx.label("both-threads-delayed");
+  ctx.nt(loopDelayed && ctlDelayed && S.stopAfterStart.load());
+}
+static rc::Gen<DelayCase> genDelayCase()
+{
+  using namespace rc;
+  auto op = gen::pair(gen::weightedElement<int>({{5, OP_START}, {5, OP_STOP}, {1, OP_AWAIT}, {1, OP_PAUSE}}), pbt::range<int>(0, 299));
+  auto cls = gen::weightedElement<int>({{10, 0}, {2, 1}, {3, 2}, {2, 3}, {1, 4}});
+  return gen::build<DelayCase>(gen::set(&DelayCase::launch, gen::weightedElement<int>({{3, 0}, {1, 1}})), gen::set(&DelayCase::prog, gen::weightedOneOf<std::vector<std::pair<int, int>>>({{1, pbt::vec(op, 12)}, {2, pbt::vec(op, 48)}})),
+      gen::set(&DelayCase::delayClass, gen::container<std::vector<int>>((size_t)NPOINTS, cls)), gen::set(&DelayCase::bodyUs, gen::weightedOneOf<int>({{3, gen::just(0)}, {1, pbt::range<int>(1, 100)}})));
+}
+
+// Complete enumeration of sparse delay schedules: every choice of two loop-thread points and two controller points (of
+// those the programs pass repeatedly: start.*, stop.*, the two "call returned" events), all four delayed by 200 us, over
+// two programs of 12 back-to-back stop()/start() pairs.  Thorough tier: all 66 x 55 x 2 quadruples; quick tier: all of
+// the first program (stop(), start() at once) and 1/8 of the second (start(), stop()), the residue chosen by the seed.
+static DelayCase quadCase(int l1, int l2, int c1, int c2, int program)
+{
+  DelayCase d;
+  d.launch = 0;
+  d.delayClass.assign(NPOINTS, 0);
+  d.delayClass[(size_t)l1] = d.delayClass[(size_t)l2] = d.delayClass[(size_t)c1] = d.delayClass[(size_t)c2] = 2;
+  if (program == 0) {
+    d.prog.push_back({OP_START, 0});
+    for (int i = 0; i < 12; ++i) {
+      d.prog.push_back({OP_STOP, 111});  // odd: the next start() follows at once
+      d.prog.push_back({OP_START, 0});
+    }
+  } else {
+    for (int i = 0; i < 12; ++i) {
+      d.prog.push_back({OP_START, 0});
+      d.prog.push_back({OP_STOP, i % 2 ? 111 : 110});
+    }
+  }
+  return d;
+}
+static void enumerate_quads(pbt::SweepResult<DelayCase> &r)
+{
+  const char *tier = getenv("PBT_TIER");
+  const bool thorough = tier && std::string(tier) == "thorough";
+  const long seed = getenv("PBT_SEED") ? atol(getenv("PBT_SEED")) : 1;
+  static const int CTL[] = {9, 10, 11, 12, 13, 14, 15, 16, 17, 23, 24};
+  long idx = 0;
+  for (int program = 0; program < 2; ++program)
+    for (int a = 0; a < NLOOPPTS; ++a)
+      for (int b = a + 1; b < NLOOPPTS; ++b)
+        for (int c = 0; c < 11; ++c)
+          for (int e = c + 1; e < 11; ++e) {
+            ++idx;
+            if (!thorough && program == 1 && (idx % 8) != (seed % 8 + 8) % 8)
+              continue;
+            DelayCase d = quadCase(LOOP_POINTS[a], LOOP_POINTS[b], CTL[c], CTL[e], program);
+            pbt::Ctx ctx;
+            r.evaluations++;
+            try {
+              delay_case(d, ctx);
+            } catch (const pbt::Failure &f) {
+              r.failed = true;
+              r.failing = d;
+              r.msg = f.msg;
+              return;
+            }
+            if (ctx.nontrivial)
+              r.nontrivial++;
+            if (r.samples.size() < 3 && ctx.nontrivial)
+              r.samples.push_back(d);
+          }
+  r.labels[thorough ? "delay-quadruples (all)" : "delay-quadruples (program 0: all, program 1: 1/8 sample)"] = r.evaluations;
+}
+
+// ---------------------------------------------------------------- bodies that run for seconds
+// stop() and the destructor wait for a body invocation however long it takes (a slow frame, blocking I/O): four loops
+// (THREAD/TASK x stop()/destructor) per duration run concurrently, each stopped / destroyed while its first body
+// invocation still has `seconds` to go.  Durations {0.3, 2.5} s (quick) plus {5.5, 11, 31} s (thorough).
+static std::string long_body_one(bool threadMode, bool viaDestructor, double seconds)
+{
+  auto mon = std::make_shared<Monitor>();
+  auto body = [mon, seconds]() {
+    mon->inBody.fetch_add(1);
+    if (mon->entries.fetch_add(1) == 0)
+      std::this_thread::sleep_for(std::chrono::duration<double>(seconds));
+    mon->inBody.fetch_sub(1);
+  };
+  std::ostringstream who;
+  who << (threadMode ? "THREAD" : "TASK") << " loop, body of " << seconds << " s, " << (viaDestructor ? "destructor" : "stop()") << ": ";
+  std::unique_ptr<AsyncLoop> loop(new AsyncLoop(body, threadMode ? AsyncLoop::THREAD : AsyncLoop::TASK));
+  loop->start();
+  if (!waitFor([&] { return mon->entries.load() > 0; }, 20.0))
+    return who.str() + "the body was not executed within 20 s after start()";
+  auto t0 = std::chrono::steady_clock::now();
+  if (viaDestructor)
+    loop.reset();
+  else
+    loop->stop();
+  const int in = mon->inBody.load();
+  const double el = std::chrono::duration<double>(std::chrono::steady_clock::now() - t0).count();
+  std::ostringstream os;
+  if (in != 0 && (threadMode || !viaDestructor)) {
+    os << who.str() << "returned after " << el << " s while the body invocation was still executing";
+    return os.str();
+  }
+  long e = mon->entries.load();
+  std::this_thread::sleep_for(std::chrono::milliseconds(20));
+  if ((threadMode || !viaDestructor) && mon->entries.load() != e)
+    return who.str() + "the body began executing again afterwards";
+  loop.reset();
+  if (!threadMode)
+    waitFor([&] { return mon.use_count() == 1; }, 40.0);  // the scheduled loop keeps the monitor alive until it has left
+  return "";
+}
+static void long_body_case(const std::pair<int, int> &cs, pbt::Ctx &ctx)
+{
+  if (!cs.first) {
+    ctx.label("skipped (once per process)");
+    return;
+  }
+  static bool ran = false;
+  if (ran) {
+    ctx.label("skipped (once per process)");
+    return;
+  }
+  ran = true;
+  verif::hook().store(nullptr);
+  std::vector<double> durations = {0.3, 2.5};
+  if (cs.first >= 2) {
+    durations.push_back(5.5);
+    durations.push_back(11);
+    durations.push_back(31);
+  }
+  std::vector<std::string> results(durations.size() * 4);
+  std::vector<std::thread> th;
+  for (size_t i = 0; i < durations.size(); ++i)
+    for (int k = 0; k < 4; ++k)
+      th.emplace_back([&, i, k] { results[i * 4 + (size_t)k] = long_body_one((k & 1) == 0, (k & 2) != 0, durations[i] + 0.01 * cs.second); });
+  for (auto &t : th)
+    t.join();
+  for (auto &r : results)
+    if (!r.empty())
+      PBT_FAIL(r);
+  ctx.label("long bodies: " + std::to_string(durations.size()) + " durations x 4");
+  ctx.nt(true);
 }
 
 static rc::Gen<Case> genCase()
@@ -444,6 +632,11 @@ static void stress_case(const StressCase &c, pbt::Ctx &ctx)
   ctx.label(threadMode ? "stress-THREAD" : "stress-TASK");
 }
 
+static int longBodyLevel()
+{
+  const char *tier = getenv("PBT_TIER");
+  return tier && std::string(tier) == "thorough" ? 2 : 1;
+}
 static void register_properties()
 {
   {
@@ -457,6 +650,10 @@ static void register_properties()
   if (only && *only == '1')
     return;
   pbt::property<Case>("schedules", 700, genCase(), run_case);
+  pbt::property<DelayCase>("delay_schedules", 400, genDelayCase(), delay_case);
+  pbt::sweep<DelayCase>("delay_quad_enumeration", enumerate_quads, delay_case);
+  pbt::property<std::pair<int, int>>("long_bodies", 1, rc::gen::pair(rc::gen::just(longBodyLevel()), pbt::range<int>(0, 9)), long_body_case);
+  pbt::registry().back()->noShrink = true;
   pbt::sweep<EnumCase>("single_rule_enumeration", enumerate, enum_case);
 }
 #ifndef C03_BIN
